@@ -21,6 +21,8 @@ func cu16List(xs [][]uint16) string {
 }
 
 var regexpTexts = []string{"/a/", "/a/gi", "/[/]/", "/\\//u", "/script/", "/script>/i", "/SCRIPT/", "/Script x/", "/scrip/", "/é/", "/\\u2028/", "/ /", "/=/", "/(?<n>a)\\k<n>/dgimsuy", "/[\\]/]/v", "/scrıpt/", "/ſcript/", "/s/", "//"[0:1] + "(?:)/"}
+// raw chunk pieces a lexer can produce (no CR, no unescaped backtick, no unescaped ${, no trailing backslash)
+var tagRawPieces = []string{"a", " ", "\\n", "\\u0041", "\\unicode", "\\x", "\\xZ", "\\01", "\\8", "\\u{110000}", "\\`", "\\${", "\\$", "$", "$$", "$ {", "{", "}", "\n", "\\\n", "é", "😀", "\u2028", "</script>", "\\\\", "'", "\"", "\\0", "\t"}
 var bigintTexts = []string{"0", "1", "123", "12345678901234567890123", "0x1F", "0b101", "0o17", "0XAB"}
 
 func corrTemplates(r *Rng, st *Stats, cf *CoqFile, n int) string {
@@ -95,10 +97,46 @@ func corrTemplates(r *Rng, st *Stats, cf *CoqFile, n int) string {
 			}
 		}
 	}
+	// tagged templates: raw strings printed verbatim
+	var tg []string
+	for k := 0; k < n/2; k++ {
+		mk := func() string {
+			var sb strings.Builder
+			for j := r.Intn(5); j > 0; j-- {
+				sb.WriteString(tagRawPieces[r.Intn(len(tagRawPieces))])
+			}
+			return strings.ReplaceAll(sb.String(), "${", "$ {") // an unescaped ${ would end the chunk
+		}
+		head := mk()
+		var tails []string
+		var tailsCoq []string
+		for j := r.Intn(3); j > 0; j-- {
+			t := mk()
+			tails = append(tails, t)
+			tailsCoq = append(tailsCoq, CBytes([]byte(t)))
+		}
+		c := randCfg(r)
+		out := js_printer.VerifPrintTaggedTemplate(c.options(), nil, head, tails)
+		if len(out) < 4 || string(out[:4]) != "this" {
+			st.Fail("tagged-template-output-shape-unexpected", map[string]interface{}{"head": head, "tails": tails}, string(out), "this`...`")
+			continue
+		}
+		st.Note("tagged-template", head+"|"+strings.Join(tails, "|"), len(tails) > 0)
+		tg = append(tg, fmt.Sprintf("(%s, [%s], %s)", CBytes([]byte(head)), strings.Join(tailsCoq, "; "), CBytes(out[4:])))
+		want := "`" + head
+		for _, t := range tails {
+			want += "${this}" + t
+		}
+		want += "`"
+		if string(out[4:]) != want {
+			st.Fail("tagged-template-raw-text-changed", map[string]interface{}{"head": head, "tails": tails, "config": c.String()}, string(out[4:]), want)
+		}
+	}
+	cf.AddCases("tagged", "bytes * list bytes * bytes", "check_tagged", tg)
 	cf.AddCases("template", "qcfg * bytes * list Z * list (list Z) * bytes", "check_template", tp)
 	cf.AddCases("bigint", "bytes * bytes * bytes", "check_bigint", bi)
 	cf.AddCases("regexp", "qcfg * bytes * bytes * bytes", "check_regexp", re)
-	return "Definition R_template_spec := Eval vm_compute in (check_template_spec template).\nPrint R_template_spec.\n"
+	return "Definition R_template_spec := Eval vm_compute in (check_template_spec template).\nPrint R_template_spec.\nDefinition R_tagged_spec := Eval vm_compute in (check_tagged_spec tagged).\nPrint R_tagged_spec.\n"
 }
 
 func utf16ToBytes(u []uint16) []byte {
